@@ -34,7 +34,7 @@ import tempfile
 from ..core import hx, unhx, unhxs, parallel_map, sha, BUILD
 
 DRIVERS = ["drv_superimpose"]
-GENERATED = ["Superimpose", "SuperimposeLifetime"]
+GENERATED = ["Superimpose", "SuperimposeLifetime", "PainterFlush"]
 
 NULL_SYN = "000000ff,ffffffff,0"
 
@@ -1901,6 +1901,263 @@ def eval_b10(res, sink, j):
 
 
 
+# --------------------------------------------------------------------------- B11: a file boundary while lines are still buffered
+
+STAMP = "\t2024-03-01 10:00:00.000000000 +0000"
+B11_FLAVOURS = ["plain-diff", "plain-diff-separated", "git"]
+B11_FOLLOWERS = ["other-language", "same-language", "unknown-name"]
+B11_TAILS = ["removed+added", "added", "removed", "context", "no-newline-marker"]
+B11_UNKNOWN = ["%s.zzq", "%s", "%s.qqq"]      # names syntect does not know: the default language
+
+
+def b11_name(rng, kind, tlang, stem):
+    """File name of a neighbour of a `tlang` file: (name, language key of LANGS or 'unknown')."""
+    if kind == "same-language":
+        return pick_name(rng, tlang, stem), tlang
+    if kind == "unknown-name":
+        return rng.choice(B11_UNKNOWN) % stem, "unknown"
+    other = rng.choice([l for l in LANGS if l not in (tlang, "plain")])
+    return pick_name(rng, other, stem), other
+
+
+def b11_hunks(rng, lang, tail):
+    """1-2 hunks of `lang` lines whose last hunk ends as `tail` says. -> (lines, number of trailing changed rows)"""
+    src = LANGS[lang if lang in LANGS else "plain"]["lines"]
+    hunks, start = [], rng.randint(1, 40)
+    for _ in range(rng.randint(0, 1)):
+        hunks += gen_hunk(rng, lang if lang in LANGS else "plain", start)
+        start += 40
+    body, old_n, new_n = [], 0, 0
+    for _ in range(rng.randint(0, 2)):
+        body.append(" " + rng.choice(src)); old_n += 1; new_n += 1
+    if tail in ("removed+added", "removed", "no-newline-marker"):
+        olds = rng.sample(src, rng.randint(1, 3))
+    else:
+        olds = []
+    if tail in ("removed+added", "no-newline-marker"):
+        news = [edit_line(rng, o) for o in olds][:rng.randint(1, len(olds))] + rng.sample(src, rng.randint(0, 1))
+    elif tail == "added":
+        news = rng.sample(src, rng.randint(1, 3))
+    else:
+        news = []
+    if tail == "context":
+        o = rng.choice(src)
+        body += ["-" + o, "+" + edit_line(rng, o), " " + rng.choice(src)]
+        old_n += 2; new_n += 2
+    body += ["-" + o for o in olds] + ["+" + x for x in news]
+    old_n += len(olds); new_n += len(news)
+    if tail == "no-newline-marker":
+        body.append("\\ No newline at end of file")
+    n_tail = len(olds) + len(news) if tail in ("removed+added", "added", "removed") else 0
+    return hunks + ["@@ -%d,%d +%d,%d @@" % (start, old_n, start, new_n)] + body, n_tail
+
+
+def b11_section(flavour, rng_dirs, name, hunks):
+    """One file section of a stream of the given flavour."""
+    da, db = rng_dirs[:2]
+    if flavour == "git":
+        return ["diff --git a/%s b/%s" % (name, name), "index 1111111..2222222 100644",
+                "--- a/" + name, "+++ b/" + name] + hunks
+    head = ["--- %s%s%s" % (da, name, STAMP), "+++ %s%s%s" % (db, name, STAMP)]
+    if flavour == "plain-diff-separated":
+        head = [rng_dirs[2] % dict(a=da + name, b=db + name, n=name)] + head
+    return head + hunks
+
+
+def b11_rows(outb, name, stop_names):
+    """Raw rows of the section of `name`: from its file header row (first row whose visible text contains the
+    name) up to the first row that mentions one of `stop_names`; trailing empty rows dropped. Also the decoded rows."""
+    raw = outb.split(b"\n")
+    dec = decode(outb)
+    start = next((i for i, r in enumerate(dec) if name in row_text(r)), None)
+    if start is None:
+        return None, None
+    end = next((i for i in range(start + 1, len(dec)) if any(n in row_text(dec[i]) for n in stop_names)), len(dec))
+    rows = list(range(start, end))
+    while rows and not row_text(dec[rows[-1]]).strip():
+        rows.pop()
+    return [raw[i] if i < len(raw) else b"" for i in rows], [dec[i] for i in rows]
+
+
+def b11_body(raw, dec, name):
+    """The rows of a section without those that show the file name and without box / rule decoration."""
+    keep = []
+    for r, d in zip(raw, dec):
+        t = row_text(d)
+        if name in t or (t and all(0x2500 <= ord(ch) <= 0x257f or ch == " " for ch in t)):
+            continue
+        keep.append(r)
+    return keep
+
+
+def eval_b11(res, sink, j):
+    if any(r[0] != 0 for r in res):
+        return
+    others = [n for n in j["names"] if n != j["tname"]]
+    a_raw, a_dec = b11_rows(res[0][1], j["tname"], others)
+    b_raw, b_dec = b11_rows(res[1][1], j["tname"], others)
+    if a_raw is None or b_raw is None:
+        sink.violation("boundary:section-header-missing", "the file header row of %s was not found" % j["tname"],
+                       replay_obj("B11s", [j["runs"][0], j["runs"][1]], tname=j["tname"], names=j["names"], flavour=j["flavour"],
+                                  n_tail=j["n_tail"]))
+        return
+    if a_raw != b_raw:
+        k = next((i for i in range(min(len(a_raw), len(b_raw))) if a_raw[i] != b_raw[i]), min(len(a_raw), len(b_raw)))
+        sig = "language:%s:section-colouring-depends-on-other-files" % j["flavour"]
+        detail = ""
+        if len(a_raw) == len(b_raw):
+            bad = [i for i in range(len(a_raw)) if a_raw[i] != b_raw[i]]
+            only_fg = erase_fg([a_dec[i] for i in bad]) == erase_fg([b_dec[i] for i in bad])
+            cells = sum(1 for i in bad for x, y in zip(a_dec[i], b_dec[i]) if x != y)
+            detail = "; %d rows differ (%d cells), only in foreground colours: %s" % (len(bad), cells, only_fg)
+            # the rows of the removed / added lines that end the last hunk (still buffered when the next
+            # file's `--- ` line arrives), possibly paired up side by side
+            if only_fg and j["n_tail"] and all(i >= len(a_raw) - j["n_tail"] for i in bad):
+                sig = "language:%s:buffered-lines-coloured-by-next-file" % j["flavour"]
+        sink.violation(sig,
+                       "the section of %s (%s) is coloured differently in the stream %s than alone (last hunk ends: %s): row %d %r vs %r%s" % (
+                           j["tname"], j["tlang"], j["stream"], j["tail"], k,
+                           a_raw[k][:160].decode("utf-8", "replace") if k < len(a_raw) else None,
+                           b_raw[k][:160].decode("utf-8", "replace") if k < len(b_raw) else None, detail),
+                       replay_obj("B11s", [j["runs"][0], j["runs"][1]], tname=j["tname"], names=j["names"],
+                                  flavour=j["flavour"], n_tail=j["n_tail"]))
+    if len(res) > 2:
+        others2 = [n for n in j["names"] if n != j["tname"]]
+        c_raw, c_dec = b11_rows(res[2][1], j["aname"], others2)
+        if c_raw is not None:
+            x, y = b11_body(b_raw, b_dec, j["tname"]), b11_body(c_raw, c_dec, j["aname"])
+            if x != y:
+                k = next((i for i in range(min(len(x), len(y))) if x[i] != y[i]), min(len(x), len(y)))
+                sink.violation("language:%s:rename-same-kind-changes-colouring" % j["flavour"],
+                               "renaming %s to %s (both %s by name) inside the stream %s changed the colouring of its hunks: row %d %r vs %r" % (
+                                   j["tname"], j["aname"], j["tlang"], j["stream"], k,
+                                   x[k][:160].decode("utf-8", "replace") if k < len(x) else None,
+                                   y[k][:160].decode("utf-8", "replace") if k < len(y) else None),
+                               replay_obj("B11r", [j["runs"][1], j["runs"][2]], tname=j["tname"], aname=j["aname"],
+                                          names=j["names"], flavour=j["flavour"]))
+
+
+def boundary_oracles(ctx, rep):
+    """Streams of several file sections in which a file's last hunk ends with removed / added lines, so that they
+    are still buffered when the next file's `--- ` line arrives (plain `diff -u` output of several files with
+    nothing between them; the same with `diff -u a b` / `Index:` / `Only in` lines between; git diffs), the next
+    file being of another language / the same language / an unknown name. Required: the section of the target is
+    rendered as it is alone, and as the same hunks are under another name of the same kind in the same place."""
+    rng = ctx.rng
+    themes = list_themes(ctx)
+    hook = ctx.hook()
+    mdl = ctx.model("drv_superimpose") if ctx.drivers_ok else None
+    combos = [(f, k, t) for f in B11_FLAVOURS for k in B11_FOLLOWERS for t in B11_TAILS[:3]]
+    rng.shuffle(combos)
+    jobs = []
+    for n_case in range(ctx.n(45, 900)):
+        if n_case < len(combos):
+            flavour, fkind, tail = combos[n_case]
+        else:
+            flavour = rng.choice(B11_FLAVOURS[:1] * 3 + B11_FLAVOURS)
+            fkind = rng.choice(B11_FOLLOWERS[:1] * 2 + B11_FOLLOWERS)
+            tail = rng.choice(B11_TAILS[:3] * 2 + B11_TAILS)
+        tlang = rng.choice([l for l in LANGS if l != "plain"] + ["unknown"])
+        if tlang == "unknown":
+            tname, aname = "qzxa.zzq", "vmqk.qqq"
+        else:
+            tname = pick_name(rng, tlang, "qzxa")
+            aname = pick_name(rng, tlang, "vmqk")
+        if flavour == "plain-diff":
+            dirs = rng.choice([("a/", "b/", None), ("", "", None), ("old/", "new/", None), ("a/src/", "b/src/", None)])
+        elif flavour == "plain-diff-separated":
+            dirs = rng.choice([("a/", "b/"), ("old/", "new/")]) + (rng.choice(
+                ["diff -u %(a)s %(b)s", "diff -ru %(a)s %(b)s", "diff -r -u %(a)s %(b)s", "Only in b: zz-%(n)s.orig"]),)
+        else:
+            dirs = ("a/", "b/", None)
+        thunks, n_tail = b11_hunks(rng, tlang, tail)
+        msecs = []
+        for _attempt in range(8):
+            stems = ["wvub", "kjyd", "pmre", "hgtc"]
+            rng.shuffle(stems)
+            before, after = [], []
+            if rng.random() < 0.4:
+                nm, nl = b11_name(rng, rng.choice(B11_FOLLOWERS), tlang if tlang != "unknown" else "rust", stems.pop())
+                h, _ = b11_hunks(rng, nl, rng.choice(B11_TAILS))
+                before.append((nm, nl, h))
+            for k in range(rng.randint(1, 2)):
+                nm, nl = b11_name(rng, fkind if k == 0 else rng.choice(B11_FOLLOWERS), tlang if tlang != "unknown" else "rust", stems.pop())
+                if tlang == "unknown" and fkind == "same-language" and k == 0:
+                    nm, nl = "%s.zzq" % nm.split(".")[0], "unknown"
+                h, _ = b11_hunks(rng, nl, rng.choice(B11_TAILS))
+                after.append((nm, nl, h))
+            names = [x[0] for x in before] + [tname, aname] + [x[0] for x in after]
+            if len(set(names)) == len(names) and not any(a != b and a in b for a in names for b in names):
+                break
+        else:
+            continue
+        sec = lambda nm, h: b11_section(flavour, dirs, nm, h)
+        mk = lambda ls: ("\n".join(ls) + "\n").encode()
+        pre = [l for nm, _, h in before for l in sec(nm, h)]
+        post = [l for nm, _, h in after for l in sec(nm, h)]
+        th = rng.choice(themes["dark"])
+        tc = rng.choice(["always", "never"])
+        args = ["--syntax-theme", th, "--true-color", tc, "--width", "200"]
+        if rng.random() < 0.25:
+            args.append("-n")
+        if rng.random() < 0.12:
+            args.append("-s")
+        if rng.random() < 0.5:
+            cargs = gen_config(rng, "syntax-all", tc)[0]
+            k = cargs.index("--hunk-header-style")
+            cargs[k + 1] = " ".join(w for w in cargs[k + 1].split() if w != "file")
+            args += cargs
+        runs = [(args, mk(sec(tname, thunks)), None), (args, mk(pre + sec(tname, thunks) + post), None),
+                (args, mk(pre + sec(aname, thunks) + post), None)]
+        pa, pb = ("a/", "b/") if flavour == "git" else dirs[:2]
+        for nm, _, h in before + [(tname, tlang, thunks)] + after:
+            msecs.append((pa + nm, pb + nm, ".".join(hunk_code([l for l in hh if not l.startswith("\\")]) or "_"
+                                                       for hh in split_hunks(h))))
+        jobs.append(dict(flavour=flavour, fkind=fkind, tail=tail, n_tail=n_tail, tname=tname, aname=aname, tlang=tlang,
+                         names=[n for n in names if n != aname], runs=runs, msecs=msecs,
+                         stream="%s | %s | %s" % (",".join(x[0] for x in before) or "-", tname, ",".join(x[0] for x in after)),
+                         follower_lang=after[0][1]))
+    # the lifetime model on the same sections
+    allnames = sorted({n for j in jobs for m, p, _ in j["msecs"] for n in (m, p)})
+    cands = sorted({c for n in allnames for c in name_candidates(n)})
+    byext = {}
+    for k, r in zip(cands, hook.ask(["superimpose.byext " + hx(k) for k in cands])):
+        byext[k] = None if r == "ok -" else unhxs(r.split()[1])
+    fb = unhxs(hook.ask(["superimpose.fallback " + hx("txt")])[0].split()[1])
+    reqs = []
+    for j in jobs:
+        keys = sorted({c for m, p, _ in j["msecs"] for n in (m, p) for c in name_candidates(n)})
+        tbl = "T" + ",".join("%s:%s" % (k.encode().hex(), byext[k].encode().hex() if byext[k] is not None else "-") for k in keys)
+        f = ["superimpose.lifetime", hx(fb), tbl, str(len(j["msecs"]))]
+        for m, p, code in j["msecs"]:
+            f += [hx(m), hx(p), code or "_"]
+        reqs.append(" ".join(f))
+    model = mdl.ask(reqs) if mdl else [None] * len(reqs)
+    flat = [r for j in jobs for r in j["runs"]]
+    results = parallel_map(lambda r: run_case(ctx, r[0], r[1], r[2]), flat)
+    for n, (j, m) in enumerate(zip(jobs, model)):
+        res = results[3 * n:3 * n + 3]
+        rep.count("boundary:%s" % j["flavour"])
+        rep.count("boundary:follower:%s" % j["fkind"])
+        rep.count("boundary:tail:%s" % j["tail"])
+        if any(r[0] != 0 for r in res):
+            rep.count("binary:nonzero-exit")
+            continue
+        nontrivial = j["n_tail"] > 0 and j["follower_lang"] != j["tlang"]
+        rep.case(key=("b11", sha(j["runs"][1][1]), tuple(j["runs"][1][0])), nontrivial=nontrivial,
+                 sample=dict(op="binary-file-boundary", flavour=j["flavour"], stream=j["stream"], target_language=j["tlang"],
+                             next_file_language=j["follower_lang"], last_hunk_ends=j["tail"], args=j["runs"][0][0]))
+        probe = Probe()
+        eval_b11(res, probe, j)
+        if m is not None:
+            model_ok = m.startswith("ok") and all(x.split(":")[1:3] == x.split(":")[3:5] for x in m.split(" ")[1:])
+            dependent = any(v.startswith("language:") and not v.endswith("rename-same-kind-changes-colouring") for v in probe.v)
+            rep.corr_case("superimpose.lifetime", m.startswith("ok") and ((not model_ok) or not dependent),
+                          dict(request=reqs[n][:400], model=m[:400], binary_failures=probe.v))
+        confirm(ctx, rep, j["runs"], res, lambda r, sink, j=j: eval_b11(r, sink, j))
+
+
+
 def run(ctx, rep):
     rep.rule = ("hook level: random (syntect sections, diff sections) over an alphabet with non-ASCII, zero-width, "
                 "tab and newline characters, random partitions incl. empty sections, trailing-newline variants, "
@@ -1931,6 +2188,7 @@ def run(ctx, rep):
     sbs_oracles(ctx, rep)
     weird_name_oracles(ctx, rep)
     shared_extension_oracles(ctx, rep)
+    boundary_oracles(ctx, rep)
 
 
 def replay(ctx, rep, obj):
@@ -1983,6 +2241,15 @@ def replay(ctx, rep, obj):
             if a != b:
                 rep.violation("language:%s:rename-same-kind-changes-colouring" % case.get("cls", "shared-extension"),
                               "renaming %s to %s (same kind) changed the colouring of its hunks" % (case["tpath"], case["apath"]), case)
+        elif oracle in ("B11s", "B11r"):
+            j = dict(case, runs=runs, tlang="?", stream="(replay)", tail="?", n_tail=case.get("n_tail", 0),
+                     aname=case.get("aname"))
+            res = [(o[0], o[1], o[2]) for o in outs]
+            if oracle == "B11r":
+                # stored as (stream with the target, stream with the renamed target): put a placeholder first
+                res = [res[0]] + res
+                j["runs"] = [runs[0]] + runs
+            eval_b11(res, rep, j)
         elif oracle == "B6p":
             bgs = [tuple(b) for b in case.get("bgs", [])]
             fgs = {it[2] for row in decode(outs[0][1]) for it in row if it[0] == "c" and it[3] in bgs}
